@@ -86,7 +86,17 @@ def replay(pid: str, doc: Dict[str, Any]) -> int:
         return 1 if hit else 0
     injected = None
     if "injected_root" in rdoc:
-        injected = horizon.rebuild_root(env, rdoc["injected_root"])
+        if isinstance(rdoc["injected_root"], dict) and "injection" in rdoc["injected_root"]:
+            from mc.checks import scenarios
+            from mc.engine import t_index
+
+            d = rdoc["injected_root"]
+            states, tss, descs, _ = scenarios.build_roots(env, rdoc["model"], int(d.get("reset_key_seed", 0)))
+            idx = next(i for i, x in enumerate(descs) if x == d)
+            injected = (jax.tree_util.tree_map(jnp.asarray, t_index(states, idx)),
+                        jax.tree_util.tree_map(jnp.asarray, t_index(tss, idx)))
+        else:
+            injected = horizon.rebuild_root(env, rdoc["injected_root"])
     path = replay_path(env, rdoc, injected)
     for t, (s, ts) in enumerate(path):
         print(f"  t={t} step_type={int(ts.step_type)} reward={np.asarray(ts.reward).tolist()} "
